@@ -141,8 +141,8 @@ def instances(tier):
         if not any(i.name == nm for i in out):
             out.append(inst(nm, h_insert_remove, timeout=timeout, sp=sp, d=d, r=r, r2=r2, via=via))
 
-    for p in ((1, 2, 3) if quick else (1, 2, 3, 4)):
-        for m in [(), (1,)] + ([(2,), (1, 1)] if p >= 2 else []):
+    for p in ((1, 2, 3) if quick else (1, 2, 3, 4, 5)):
+        for m in [(), (1,)] + ([(2,), (1, 1)] if p >= 2 else []) + ([] if quick or p < 3 else [(p - 1,), (1, 2, 1)]):
             for rational in (False, True):
                 sp = spec('curve', (p,), (m,), rational=rational)
                 for r in range(1, p + 1):
@@ -154,7 +154,7 @@ def instances(tier):
     add(spec('curve', (2,), ((1,),), rational=False, lo=2, hi=5), 0, 2, 2)
     surf = [((1, 2), ((1,), ())), ((2, 1), ((), (1,))), ((2, 2), ((1,), (1,)))]
     if not quick:
-        surf += [((3, 2), ((1,), ())), ((2, 3), ((), (1,)))]
+        surf += [((3, 2), ((1,), ())), ((2, 3), ((), (1,))), ((3, 3), ((1,), (1,)))]
     for degs, ms in surf:
         for rational in (False, True):
             sp = spec('surface', degs, ms, rational=rational)
